@@ -32,9 +32,8 @@
      (c06_ts_whole_stream: the demultiplexed stream = the frames of the video
      walk / of a partition of the AAC frames over the published messages);
      HLS inside the group at EVERY instant (c06_hls_group,
-     c06_hls_no_loss_every_instant, c06_hls_live_ok / _parsed /
-     _media_sequence every instant: C10's invariant lifted to the re-entrant
-     wiring); JOIN POINTS ON BYTES through the fan-out model the harness runs
+     c06_hls_no_loss_every_instant, c06_hls_c10_every_instant: C10's invariant
+     and trace theorems lifted to the re-entrant wiring); JOIN POINTS ON BYTES through the fan-out model the harness runs
      (c06_httpts_any_join(_waiting): PAT/PMT in force, cached GOPs, then every
      frame - consecutive frames of the publication from a boundary on, which
      demultiplex per track to the remuxer's frames; c06_rtsp_any_join(_gate):
@@ -904,49 +903,34 @@ Proof. vm_compute. split; reflexivity. Qed.
 From Lal Require Hls.HlsInv Hls.HlsParse Hls.HlsFs Hls.HlsRunProofs Remux.RemuxHlsRunProofs.
 Module RHR := Lal.Remux.RemuxHlsRunProofs.
 
-(* C10's c10_inv_every_prefix: after EVERY operation the live play list (if there is one) is the text of a
-   structured play list that parses back to it, lists only segments whose files exist, are closed, are whole TS
-   packets and begin with PAT/PMT, with durations that round to at most the target duration *)
-Theorem c06_hls_live_ok_every_instant : forall c evs x g outs k,
-  HlsInv.cfg_ok c -> g_run c remuxer_init (g_init c true) evs = (x, g, outs) -> Forall msg_ok (RHR.gmsgs evs) ->
-  exists h, g_hls g = Some h /\ live_ok c (HlsFs.apply_all [] (firstn k (h_ops h))).
-Proof.
-  intros c evs x g outs k Hc H Hm. destruct (RHR.group_hls_chain c Hc evs x g outs H Hm) as (h & Hh & Hch).
-  exists h. split; [exact Hh|]. exact (RHR.chain_live_ok c (h_ops h) (h_mux h) Hc Hch k).
-Qed.
-Print Assumptions c06_hls_live_ok_every_instant.
-
-(* C10's c10_parsed_playlist_consistent, in terms of the parse result alone *)
-Theorem c06_hls_parsed_every_instant : forall c evs x g outs k,
+(* C10's trace theorems at EVERY instant (one statement, three clauses; j, k count file system operations):
+   - c10_inv_every_prefix: after every operation the live play list (if there is one) is the text of a structured
+     play list that parses back to it, lists only segments whose files exist, are closed, are whole TS packets and
+     begin with PAT/PMT, with durations that round to at most the target duration;
+   - c10_parsed_playlist_consistent: the same in terms of the parse result alone;
+   - c10_media_sequence_monotone: between any two instants EXT-X-MEDIA-SEQUENCE does not decrease. *)
+Theorem c06_hls_c10_every_instant : forall c evs x g outs,
   HlsInv.cfg_ok c -> g_run c remuxer_init (g_init c true) evs = (x, g, outs) -> Forall msg_ok (RHR.gmsgs evs) ->
   exists h, g_hls g = Some h /\
-    let s := HlsFs.apply_all [] (firstn k (h_ops h)) in
-    forall f t, HlsFs.fs_lookup HlsFs.PLive s = Some f -> HlsParse.parse_live (HlsFs.fdata f) = Some t ->
-    forall ts, In ts (HlsParse.t_segs t) ->
-      ((HlsParse.t_ms ts + 500) / 1000 <= HlsParse.t_target t)%Z /\
-      exists sg, HlsParse.t_uri ts = HlsPlaylist.seg_name (c_stream c) sg /\ seg_file_ok s sg.
+    let st k := HlsFs.apply_all [] (firstn k (h_ops h)) in
+    (forall k, live_ok c (st k)) /\
+    (forall k f t, HlsFs.fs_lookup HlsFs.PLive (st k) = Some f -> HlsParse.parse_live (HlsFs.fdata f) = Some t ->
+       forall ts, In ts (HlsParse.t_segs t) ->
+         ((HlsParse.t_ms ts + 500) / 1000 <= HlsParse.t_target t)%Z /\
+         exists sg, HlsParse.t_uri ts = HlsPlaylist.seg_name (c_stream c) sg /\ seg_file_ok (st k) sg) /\
+    (forall j k fj fk tj tk, (j <= k)%nat ->
+       HlsRunProofs.no_removeall (skipn j (firstn k (h_ops h))) ->
+       HlsFs.fs_lookup HlsFs.PLive (st j) = Some fj -> HlsFs.fs_lookup HlsFs.PLive (st k) = Some fk ->
+       HlsParse.parse_live (HlsFs.fdata fj) = Some tj -> HlsParse.parse_live (HlsFs.fdata fk) = Some tk ->
+       (HlsParse.t_seq tj <= HlsParse.t_seq tk)%Z).
 Proof.
-  intros c evs x g outs k Hc H Hm. destruct (RHR.group_hls_chain c Hc evs x g outs H Hm) as (h & Hh & Hch).
-  exists h. split; [exact Hh|]. intros s f t. exact (RHR.chain_parsed c (h_ops h) (h_mux h) Hc Hch k f t).
+  intros c evs x g outs Hc H Hm. destruct (RHR.group_hls_chain c Hc evs x g outs H Hm) as (h & Hh & Hch).
+  exists h. split; [exact Hh|]. cbv zeta. split; [|split].
+  - exact (RHR.chain_live_ok c (h_ops h) (h_mux h) Hc Hch).
+  - intros k f t. exact (RHR.chain_parsed c (h_ops h) (h_mux h) Hc Hch k f t).
+  - intros j k fj fk tj tk Hjk HN. exact (RHR.chain_media_sequence c (h_ops h) (h_mux h) Hc Hch j k fj fk tj tk Hjk HN).
 Qed.
-Print Assumptions c06_hls_parsed_every_instant.
-
-(* C10's c10_media_sequence_monotone: between any two instants EXT-X-MEDIA-SEQUENCE does not decrease *)
-Theorem c06_hls_media_sequence_monotone : forall c evs x g outs j k,
-  HlsInv.cfg_ok c -> g_run c remuxer_init (g_init c true) evs = (x, g, outs) -> Forall msg_ok (RHR.gmsgs evs) ->
-  (j <= k)%nat ->
-  exists h, g_hls g = Some h /\
-    forall fj fk tj tk,
-    HlsRunProofs.no_removeall (skipn j (firstn k (h_ops h))) ->
-    HlsFs.fs_lookup HlsFs.PLive (HlsFs.apply_all [] (firstn j (h_ops h))) = Some fj ->
-    HlsFs.fs_lookup HlsFs.PLive (HlsFs.apply_all [] (firstn k (h_ops h))) = Some fk ->
-    HlsParse.parse_live (HlsFs.fdata fj) = Some tj -> HlsParse.parse_live (HlsFs.fdata fk) = Some tk ->
-    (HlsParse.t_seq tj <= HlsParse.t_seq tk)%Z.
-Proof.
-  intros c evs x g outs j k Hc H Hm Hjk. destruct (RHR.group_hls_chain c Hc evs x g outs H Hm) as (h & Hh & Hch).
-  exists h. split; [exact Hh|]. intros fj fk tj tk HN. exact (RHR.chain_media_sequence c (h_ops h) (h_mux h) Hc Hch j k fj fk tj tk Hjk HN).
-Qed.
-Print Assumptions c06_hls_media_sequence_monotone.
+Print Assumptions c06_hls_c10_every_instant.
 
 (* ... and c06_hls_group after every event: the frame data written to the segment files so far are, callback by
    callback from the first boundary frame on, the handed-over audio frames followed by the frame itself *)
